@@ -519,7 +519,10 @@ func bucket(n int) string {
 
 // ---- HTTP backend cases --------------------------------------------------------------------------
 
-var collectorBackends = []struct{ name string; flavors []string }{
+var collectorBackends = []struct {
+	name    string
+	flavors []string
+}{
 	{"datadog", []string{"z", "p"}},
 	{"influxdb", []string{"v1", "v2"}},
 	{"newrelic", []string{"infra", "insights", "metrics"}},
@@ -621,6 +624,13 @@ func genBe(r *hx.Rng, tier string, st *hx.Stats, slow *int, b *budgets) string {
 
 func genFl(r *hx.Rng, st *hx.Stats) string {
 	a, b := r.Range(1, 4), r.Range(1, 4)
+	if r.Chance(1, 3) {
+		// cancellation in the middle of the flush, while backend j is handed aggregator i's map
+		line := fmt.Sprintf("flx %d %d %d %d", a, b, r.Intn(a), r.Intn(b))
+		st.Hit("fl:cancel-in-mid-flush")
+		st.Case(line, a*b > 1)
+		return line
+	}
 	pairs := []string{}
 	for x := 0; x < a; x++ {
 		for y := 0; y < b; y++ {
